@@ -213,6 +213,10 @@ def run_query(m, q):
         if kind == "call":
             out = m(t, [fexpr.to_float(Fraction(x)) for x in q[2]])
             return {"ok": [num(v) for v in out]}
+        if kind == "stoichvar":
+            # q = ["stoichvar", vars, t, variable]
+            d = m.get_stoichiometries_of_variable(q[3], _vars_arg(q[1]), t)
+            return {"ok": sorted([r, num(v)] for r, v in d.items())}
         if kind == "stoich":
             df = m.get_stoichiometries(_vars_arg(q[1]), t)
             return {"ok": canon_stoich({c: {r: num(df.loc[c, r]) for r in df.columns} for c in df.index})}
@@ -468,6 +472,29 @@ class Spec:
                     d.setdefault(cpd, {})[f] = rat_str(self.coef(cj, env))
         return canon_stoich(d)
 
+    def stoich_of(self, state, t, x):
+        env = self.at(state, t)
+        out = {}
+        for r, rx in self.rxns.items():
+            for cpd, cj in rx["st"]:
+                if cpd == x:
+                    out[r] = rat_str(self.coef(cj, env))
+        for s in self.surs.values():
+            for f, st in s["st"]:
+                for cpd, cj in st:
+                    if cpd == x:
+                        out[f] = rat_str(self.coef(cj, env))
+        return sorted([k, v] for k, v in out.items())
+
+    def touched_vars(self):
+        out = []
+        for _, rx in self.rxns.items():
+            out += [c for c, _ in rx["st"]]
+        for s in self.surs.values():
+            for _, st in s["st"]:
+                out += [c for c, _ in st]
+        return [x for x in self.vars if x in out]
+
     def only_params(self):
         """least fixed point: derived whose every argument is a parameter or such a derived"""
         res = set()
@@ -525,6 +552,8 @@ class Spec:
                 return {"ok": [[k, rat_str(d[k])] for k in self.vars]}
             if kind == "stoich":
                 return {"ok": self.stoich(state, q[2])}
+            if kind == "stoichvar":
+                return {"ok": self.stoich_of(state, q[2], q[3])}
             raise ValueError(q)
         except SpecMissing as e:
             err = {"err": ["MissingDependenciesError", e.missing]}
